@@ -92,16 +92,19 @@ def gen_dx(rng, thorough):
     vals = [gen_value(rng) for _ in range(n)]
     toks = [fmt_val(rng, v) for v in vals]
     origin = [rng.uniform(-1e3, 1e3) if rng.random() < 0.9 else rng.uniform(-1e7, 1e7) for _ in range(3)]
-    h = [rng.uniform(0.1, 2) for _ in range(3)]
+    h = [[rng.uniform(0.1, 2) if i == j else 0.0 for j in range(3)] for i in range(3)]
+    if rng.random() < 0.35:
+        # a sheared / rotated grid: the three step vectors have off-diagonal components (non-symmetric matrix)
+        h = [[round(rng.uniform(-1.5, 1.5), 3) if (i != j and rng.random() < 0.7) else h[i][j] for j in range(3)] for i in range(3)]
+        feats.add("non-orthogonal-grid")
     lines = []
     if rng.random() < 0.8:
         lines += ["# Data from APBS", "# ", "# POTENTIAL (kT/e)"][: rng.randint(1, 3)]
         feats.add("comments")
     lines.append(f"object 1 class gridpositions counts {nx} {ny} {nz}")
     lines.append(f"origin {origin[0]:e} {origin[1]:e} {origin[2]:e}")
-    lines.append(f"delta {h[0]:e} 0.000000e+00 0.000000e+00")
-    lines.append(f"delta 0.000000e+00 {h[1]:e} 0.000000e+00")
-    lines.append(f"delta 0.000000e+00 0.000000e+00 {h[2]:e}")
+    for i in range(3):
+        lines.append(f"delta {h[i][0]:e} {h[i][1]:e} {h[i][2]:e}")
     lines.append(f"object 2 class gridconnections counts {nx} {ny} {nz}")
     lines.append(f"object 3 class array type double rank 0 items {n} data follows")
     per = rng.choice([3, 3, 3, 1, 2, 4, 5, 6, 7])
@@ -148,7 +151,7 @@ def oracle(shape, origin, h, toks, natoms, cube_text):
             if int(g[0]) != -shape[ax]:
                 return ("count", f"axis {ax}: {g[0]} != -{shape[ax]}")
             for k in range(3):
-                want = h[ax] if k == ax else 0.0
+                want = h[ax][k] if isinstance(h[ax], (list, tuple)) else (h[ax] if k == ax else 0.0)
                 if not close6f(g[1 + k], want):
                     return ("header", f"spacing[{ax}][{k}] {g[1 + k]} vs {want}")
         atom_lines = lines[6 : 6 + natoms]
